@@ -9,12 +9,12 @@ wt=/tmp/vs-$name
 git -C /repo worktree remove --force $wt >/dev/null 2>&1
 git -C /repo worktree add -f $wt HEAD >/dev/null 2>&1 || { echo "worktree failed"; exit 2; }
 cd $wt
-cp $sd/demo_test.go masswallet/seed_demo_test.go
-go test -vet=off -count=1 -run "$rx" ./masswallet/ > $sd/verify_demo_clean.log 2>&1; clean=$?
+cp $sd/demo_test.go ${4:-masswallet}/seed_demo_test.go
+go test -vet=off -count=1 -run "$rx" ./${4:-masswallet}/ > $sd/verify_demo_clean.log 2>&1; clean=$?
 git apply $sd/patch.diff; ap=$?
 go build ./... > $sd/verify_build.log 2>&1; bld=$?
-go test -vet=off -count=1 -run "$rx" ./masswallet/ > $sd/verify_demo_mut.log 2>&1; mut=$?
-rm masswallet/seed_demo_test.go
+go test -vet=off -count=1 -run "$rx" ./${4:-masswallet}/ > $sd/verify_demo_mut.log 2>&1; mut=$?
+rm ${4:-masswallet}/seed_demo_test.go
 go test -vet=off -count=1 ./masswallet/... ./cmd/... > $sd/verify_tests.log 2>&1; tst=$?
 (cd api && go test -vet=off -count=1 -json . 2>/dev/null | grep '"Action":"fail"' | grep -o '"Test":"[^"]*"' | sort -u | tr '\n' ' ') > $sd/verify_api_fail.txt
 cd /; git -C /repo worktree remove --force $wt
